@@ -5,9 +5,9 @@
 
 namespace c03
 {
-  enum UOp { U_AXPY, U_SCALE, U_SCALE_ROWS, U_SCALE_COLS, U_FROB, U_RN2, U_RN2SQR, U_RN2SQR_S, U_LUMP, U_DIAG, U_MAXABS, U_MINABS, U_MAX, U_MIN, U_SHRINK, U_COUNT };
+  enum UOp { U_AXPY, U_SCALE, U_SCALE_ROWS, U_SCALE_COLS, U_FROB, U_RN2, U_RN2SQR, U_RN2SQR_S, U_LUMP, U_DIAG, U_MAXABS, U_MINABS, U_MAX, U_MIN, U_SHRINK, U_BANDW, U_RADIUS, U_COUNT };
   static const char* uname[U_COUNT] = {"axpy", "scale", "scale_rows", "scale_cols", "norm_frobenius", "row_norm2", "row_norm2sqr", "row_norm2sqr(scal)",
-    "lump_rows", "extract_diag", "max_abs_element", "min_abs_element", "max_element", "min_element", "shrink"};
+    "lump_rows", "extract_diag", "max_abs_element", "min_abs_element", "max_element", "min_element", "shrink", "bandwidth_row/column", "radius_row/column"};
   struct UCase { int op, var; };
 
   inline std::vector<UCase> ucases(bool with_shrink)
@@ -22,6 +22,7 @@ namespace c03
     v.push_back({U_DIAG, 0});
     for(int op = U_MAXABS; op <= U_MIN; ++op) for(int zv = 0; zv < 2; ++zv) v.push_back({op, zv});
     if(with_shrink) for(int var = 0; var < 10; ++var) v.push_back({U_SHRINK, var});     // threshold = var % 5, zv = var / 5
+    if(with_shrink) { v.push_back({U_BANDW, 0}); v.push_back({U_RADIUS, 0}); }            // CSR only: pattern reductions
     return v;
   }
 
@@ -35,6 +36,7 @@ namespace c03
   inline bool alphabet_applies(int op, int alphabet)
   {
     if(alphabet != 3) return true;
+    if(op == U_BANDW || op == U_RADIUS) return false;   // pattern only: one alphabet is enough
     return op == U_SCALE || op == U_SCALE_ROWS || op == U_SCALE_COLS || op == U_DIAG || (op >= U_MAXABS && op <= U_MIN) || op == U_SHRINK;
   }
   /// (alphabet, scenario) variants of the element-wise operations
@@ -288,6 +290,38 @@ namespace c03
           if(!near<DT>(c, k2 + " lump_rows-of-result", lf[size_t(i)], e, xact && alphabet != 3, LD(n + 4) * eps * ae, "row " + std::to_string(i))) break;
         }
       }
+      break;
+    }
+    case U_BANDW: case U_RADIUS:
+    if constexpr(T::has_shrink)
+    {
+      // pattern reductions: bandwidth = max over non-empty rows (columns) of last-first+1, radius = max distance of the first/last entry of a row (column)
+      // to the diagonal; the reported index is the first row (column) that attains the maximum
+      M A = operand(D); const uint64_t h = hash_of(A);
+      auto ref = [&](bool cols, bool radius, Index& val, Index& idx) {
+        val = 0; idx = 0;
+        const int no = cols ? n : m, ni = cols ? m : n;
+        for(int o = 0; o < no; ++o)
+        {
+          int first = -1, last = -1;
+          for(int q = 0; q < ni; ++q) if(cols ? D.has(q, o) : D.has(o, q)) { if(first < 0) first = q; last = q; }
+          if(first < 0) continue;
+          const Index t = radius ? Index(std::max(std::abs(first - o), std::abs(last - o))) : Index(last - first + 1);
+          if(t > val) { val = t; idx = Index(o); }
+        } };
+      for(int pass = 0; pass < 2; ++pass)
+      {
+        Index gv = 99, gi = 99, ev, ei;
+        if(uc.op == U_BANDW) A.bandwidth_row(gv, gi); else A.radius_row(gv, gi);
+        ref(false, uc.op == U_RADIUS, ev, ei);
+        if(!c.check(gv == ev && gi == ei, key + " (row)", [&]{ return "got value " + std::to_string(gv) + " at " + std::to_string(gi) + ", expected " + std::to_string(ev) + " at " + std::to_string(ei); })) break;
+        gv = 99; gi = 99;
+        if(uc.op == U_BANDW) A.bandwidth_column(gv, gi); else A.radius_column(gv, gi);
+        ref(true, uc.op == U_RADIUS, ev, ei);
+        if(!c.check(gv == ev && gi == ei, key + " (column)", [&]{ return "got value " + std::to_string(gv) + " at " + std::to_string(gi) + ", expected " + std::to_string(ev) + " at " + std::to_string(ei); })) break;
+        if(pass) c.count("re_invocations");
+      }
+      c.check(hash_of(A) == h, key + " matrix-modified", "matrix was modified");
       break;
     }
     default: break;
